@@ -204,8 +204,7 @@ def _prepare(repo, rep):
               "space, eq, expr)", construct="merged-tuple", where=L.where(f))
     # duplicates inside one tal:attributes are rejected by parse_attributes
     pa = repo.func("chameleon.tal.parse_attributes")
-    t2 = " ".join(src(s) for s in ast.walk(pa.node)
-                  if isinstance(s, ast.stmt))
+    t2 = L.text(pa.node)
     rep.check("if name in seen:" in t2 and "raise LanguageError" in t2 and
               "seen.add(name)" in t2, "R07.6", pa.qualname,
               "a name may occur once in a tal:attributes list",
@@ -414,8 +413,7 @@ def _choice(repo, rep):
               site, "dynamic attributes are evaluated with 'default' bound to "
               "the default marker", construct="default-alias", where=wh)
     # filters: each dict expression is registered in every open filter list
-    text = " ".join(src(s) for s in ast.walk(f.node)
-                    if isinstance(s, ast.stmt))
+    text = L.text(f.node)
     rep.check("for fs in filtering: fs.append(expression)" in text and
               "filtering.append([])" in text, "R07.3", site,
               "a dict entry suppresses every earlier attribute it names "
